@@ -96,6 +96,7 @@ def run(fb, rep, tier):
     unscaled_entry(fb, rep, opt)
     accepted_has_objective(fb, rep)
     farkas_sense(fb, rep)
+    reduced_cost_sign(fb, rep)
 
 
 def flags(fb, rep, opt):
@@ -301,3 +302,74 @@ def farkas_sense(fb, rep):
                and x.i > a.i and any(y.k == 'IfStmt' and 'OBJSENSE_MAXIMIZE' in render(y.kid('cond')) for y in f.ancestors(x))]
         rep.check(bool(neg), 'R03.7', '_untransformFeasibility|_dualFarkas = _dual', '%s:%d' % (f.file, a.l), 'negated under OBJSENSE_MAXIMIZE',
                   'the Farkas vector is copied from the dual multipliers without a sense-dependent negation: for maximisation problems it comes back with the opposite signs and fails the Farkas test')
+
+
+def reduced_cost_sign(fb, rep):
+    """R03.8: reduced costs are objective minus dual activity (c - A^T y) wherever the exact solver recomputes them.  Two shapes occur:
+    (a) vector form: getObj(X) followed by subDualActivity(y, X) on the same X; (b) entry form: X[i] = y * col(i); X[i] -= obj(i); and then
+    exactly one negation X[i] *= -1 on every path through the rest of the block (counted over the structured statements)."""
+    rep.rule('R03.8', 'recomputed reduced costs are objective minus dual activity: getObj + subDualActivity, or y*col - obj negated exactly once on every path', floor=5)
+    k = 0
+    for f in sorted(fb.funcs.values(), key=lambda g: (g.file, g.line)):
+        if not f.file.endswith('solverational.hpp') or not f.name.startswith(C + '::') or not f.nodes:
+            continue
+        fn = f.name.replace('soplex::', '')[:60]
+        # (a)
+        for n in f.nodes:
+            if n.k == 'CXXMemberCallExpr' and n.short == 'getObj' and len(n.args()) == 1 and '_redCost' in render(n.args()[0]):
+                X = render(strip(n.args()[0]))
+                par = f.parent_of(n)
+                while par is not None and par.k != 'CompoundStmt':
+                    par = f.parent_of(par)
+                after = [x for x in (par.walk() if par is not None else []) if x.i > n.i and x.k == 'CXXMemberCallExpr' and x.short in ('subDualActivity', 'addDualActivity')
+                         and len(x.args()) == 2 and render(strip(x.args()[1])) == X]
+                k += 1
+                rep.check(bool(after) and after[0].short == 'subDualActivity', 'R03.8', '%s|%s = obj - A^T y' % (fn, X), '%s:%d' % (f.file, n.l), 'getObj then subDualActivity',
+                          'after getObj(%s) the dual activity is %s: the reduced costs are not objective minus dual activity' % (X, 'added (addDualActivity)' if after else 'never subtracted'))
+        # (b)
+        for n in f.nodes:
+            if not (n.k in ('CXXOperatorCallExpr', 'CompoundAssignOperator') and ((n.short or '') == 'operator-=' or n.o == '-=')):
+                continue
+            ks = n.args() if n.k == 'CXXOperatorCallExpr' else n.kids
+            if len(ks) != 2 or '_redCost[' not in render(ks[0]) or 'objRational(' not in render(ks[1]):
+                continue
+            X = render(strip(ks[0]))
+            st = n
+            par = f.parent_of(st)
+            while par is not None and par.k != 'CompoundStmt':
+                st = par
+                par = f.parent_of(par)
+            if par is None:
+                continue
+            sibs = par.kids
+            pos = [i for i, x in enumerate(sibs) if x.i == st.i][0]
+            prev = render(sibs[pos - 1]) if pos > 0 else ''
+            k += 1
+            key = '%s|%s = -(y*col - obj)' % (fn, X)
+            if not (X in prev and '* colVectorRational(' in prev):
+                rep.unrec('R03.8', key, '%s:%d' % (f.file, n.l), 'the statement before `%s -= obj` is not `%s = y * col`' % (X, X))
+                continue
+
+            def negs(s_):
+                """set of possible numbers of negations of X over the paths through statement s_"""
+                s_ = strip(s_)
+                if s_.k == 'CompoundStmt':
+                    acc = {0}
+                    for c_ in s_.kids:
+                        acc = set(a + b for a in acc for b in negs(c_))
+                    return acc
+                if s_.k == 'IfStmt':
+                    a = negs(s_.kid('then')) if s_.kid('then') is not None else {0}
+                    b = negs(s_.kid('else')) if s_.kid('else') is not None else {0}
+                    return a | b
+                r = render(s_)
+                if r.replace(' ', '') in ('(%s*=-1)' % X.replace(' ', ''), '%s*=-1' % X.replace(' ', '')) or (X in r and '*= -1' in r and len(r) < len(X) + 12):
+                    return {1}
+                return {0}
+            tot = {0}
+            for c_ in sibs[pos + 1:]:
+                tot = set(a + b for a in tot for b in negs(c_))
+            rep.check(tot == {1}, 'R03.8', key, '%s:%d' % (f.file, n.l), 'negated exactly once on every path',
+                      'after %s = y*col - obj the value is negated %s times depending on the path: where it is not negated exactly once the reduced cost has the wrong sign' % (X, sorted(tot)))
+    if k < 5:
+        raise AnalysisBroken('R03.8: only %d reduced-cost recomputations found' % k)
